@@ -39,10 +39,20 @@ def show_recs(rs: list[bytes]) -> str:
 
 
 # ---------------------------------------------------------------- implementation side
+_SKIP: list[bytes] = []     # when non-empty: [bytes]; the source holds these bytes first and is positioned just after them
 _DISK: list[Any] = []      # when non-empty: [directory]; sources are then real files opened 'rb' (a BufferedReader), not BytesIO
 
 
 def open_source(file: bytes):
+    if _SKIP:
+        pre, rest = _SKIP[0], file
+        _SKIP.clear()
+        try:
+            src = open_source(pre + rest)
+        finally:
+            _SKIP.append(pre)
+        src.seek(len(pre))
+        return src
     if not _DISK:
         return io.BytesIO(file)
     import os
@@ -285,6 +295,34 @@ def explore(ck: Check, scale: int) -> None:
                             {"recfm": "N", "lens": lens, "source": "file on disk"})
         finally:
             _DISK.clear()
+
+    # a source the caller has positioned: a label / junk before the dataset was skipped (or read by another reader) before the reader
+    # is made -- the records are those from the position on, none of the skipped bytes
+    for prefix in (b"\x00\x08\x00\x00LBL1", bytes(80), b"HDR" * 7):
+        _SKIP.append(prefix)
+        try:
+            lens = [rng.randint(1, 90) for _ in range(rng.randint(2, 6))]
+            recs = [rec_bytes(rng, n, j) for j, n in enumerate(lens)]
+            blocks = gen_blocks(rng, recs)
+            frecs = [rec_bytes(rng, 40, j) for j in range(4)]
+            for kind, file, want, lrecl in (("F", b"".join(frecs), frecs, 40), ("V", write_v(recs), recs, None), ("Vrdw", write_v(recs), [word(len(r) + 4) + r for r in recs], None),
+                                            ("VB", write_vb(blocks), recs, None)):
+                ck.case(("positioned", kind, len(prefix), tuple(lens)), feature=f"positioned/{kind}")
+                ck.oracle_evaluations += 1
+                got = impl_iter(kind, file, lrecl)
+                if got != show_recs(want):
+                    name = {"F": "RECFM_F.record_iter", "V": "RECFM_V.record_iter", "Vrdw": "RECFM_V.rdw_iter", "VB": "RECFM_VB.record_iter"}[kind]
+                    ck.fail(name, f"positioned/{kind}: the source was positioned after {len(prefix)} bytes that are no part of the dataset; the "
+                                  f"records read ({got[:60]}) are not those written from that position on", {"recfm": kind, "lens": lens, "skipped_prefix": prefix.hex()})
+            ck.case(("positioned", "N", len(prefix), tuple(lens)), feature="positioned/N")
+            ck.oracle_evaluations += 1
+            file = b"".join(recs)
+            rs, end, tell = impl_n(file, lens)
+            if rs != recs or end != "exhausted":
+                ck.fail("RECFM_N.record_iter", f"positioned/N: the source was positioned after {len(prefix)} bytes that are no part of the dataset; "
+                                               f"the records read are not those written from that position on", {"recfm": "N", "lens": lens, "skipped_prefix": prefix.hex()})
+        finally:
+            _SKIP.clear()
 
     # malformed stream: model and code must agree on the error kind (not part of the property, validates the model)
     for i in range(20 * scale):
